@@ -834,7 +834,7 @@ func (t *sourceTracer) TransitionEnd(tx *am.Transition) {
 	if s.syncMutations {
 		mut := tx.Mutation
 		// skip non-tracked called states
-		called := slices.DeleteFunc(mut.Called, func(idx int) bool {
+		called := slices.DeleteFunc(slices.Clone(mut.Called), func(idx int) bool {
 			return !slices.Contains(t.trackedStateIdxs, idx)
 		})
 		t.dataQueue = append(t.dataQueue, tracerMutation{
